@@ -32,16 +32,38 @@ def strip_comments(src):
     return src
 
 
-def forbidden_hits():
+def import_closure(modules):
+    """files of this project transitively imported by the given modules"""
+    seen, todo = set(), list(modules)
+    while todo:
+        m = todo.pop()
+        if m in seen or not m.startswith("Skglm"):
+            continue
+        path = os.path.join(LEAN, m.replace(".", "/") + ".lean")
+        if not os.path.exists(path):
+            continue
+        seen.add(m)
+        for l in open(path).read().splitlines():
+            mm = re.match(r"\s*import\s+(\S+)", l)
+            if mm:
+                todo.append(mm.group(1))
+    return sorted(seen)
+
+
+def forbidden_hits(modules=None):
+    """forbidden tokens (sorry, admit, axiom, native_decide, ...) in the import closure of `modules`
+    (whole library when None)"""
     hits = []
-    for d, _, fs in os.walk(os.path.join(LEAN, "Skglm")):
-        for f in fs:
-            if f.endswith(".lean"):
-                p = os.path.join(d, f)
-                src = strip_comments(open(p).read())
-                for i, l in enumerate(src.splitlines()):
-                    if FORBIDDEN.search(l):
-                        hits.append(f"{os.path.relpath(p, LEAN)}:{i+1}:{l.strip()}")
+    if modules is None:
+        files = [os.path.join(d, f) for d, _, fs in os.walk(os.path.join(LEAN, "Skglm")) for f in fs
+                 if f.endswith(".lean")]
+    else:
+        files = [os.path.join(LEAN, m.replace(".", "/") + ".lean") for m in import_closure(modules)]
+    for p in files:
+        src = strip_comments(open(p).read())
+        for i, l in enumerate(src.splitlines()):
+            if FORBIDDEN.search(l):
+                hits.append(f"{os.path.relpath(p, LEAN)}:{i+1}:{l.strip()}")
     return hits
 
 
